@@ -32,7 +32,7 @@ Print Assumptions C06_write_length.
 
 Theorem C06_fvar_lines_shape vals :
   exists gs, fvar_lines vals = map (fun g => lit "FVAR   " ++ join (lit "   ") g) gs /\ concat gs = vals
-             /\ Forall (fun g => 1 <= length g <= 7) gs.
+             /\ Forall (fun g => (1 <= length g <= 7)%nat) gs.
 Proof. exact (fvar_lines_shape vals). Qed.
 Print Assumptions C06_fvar_lines_shape.
 
